@@ -51,6 +51,7 @@ type Attempt struct {
 	Signer   int    `json:"signer"`   // -1: SigndPubKey empty
 	Over     int    `json:"over"`     // key whose public key the signer signed
 	Mangle   string `json:"mangle,omitempty"`
+	Dial     bool   `json:"dial,omitempty"` // the node under test is the dialling side (outbound connection)
 }
 
 type AdmCase struct {
@@ -160,6 +161,7 @@ func genAdm(t *rapid.T) AdmCase {
 			a.Over = rapid.IntRange(0, poolSize-1).Draw(t, "over")
 		}
 		a.Mangle = rapid.SampledFrom([]string{"", "", "", "", "", "lower", "flip", "badhex", "odd", "short", "long"}).Draw(t, "mangle")
+		a.Dial = rapid.IntRange(0, 2).Draw(t, "dial") == 0
 		c.Attempts = append(c.Attempts, a)
 	}
 	return c
@@ -320,7 +322,12 @@ func runAdm(c AdmCase, x *h.Ctx) {
 		psw.SetNodePrivKey(pk)
 		psw.SetNodeInfo(&p2p.NodeInfo{PubKey: poolKey(a.Announce).PubKey(), SigndPubKey: sigString(a), Moniker: "peer", Network: "c20", Version: "0.1.0", ListenAddr: fmt.Sprintf("10.0.1.%d:46656", ai+2)})
 		c1, c2 := pipePair()
-		chNode, chPeer := addPeer(sw, c1, false), addPeer(psw, c2, true)
+		// who dialled does not matter for admission: seeds and address-book entries are dialled by
+		// the node itself and go through the same handshake and filters
+		chNode, chPeer := addPeer(sw, c1, a.Dial), addPeer(psw, c2, !a.Dial)
+		if a.Dial {
+			x.Label("node-is-the-dialling-side")
+		}
 		var rn addRes
 		timer := time.NewTimer(180 * time.Second)
 		select {
